@@ -61,6 +61,12 @@ package linker
 //@ unguarded visit-every-import C18: func=(*linkerContext).appendIsolatedHashesForImportedChunks ; in=linker ; site=call appendIsolatedHashesForImportedChunks ; allow=false:visited[chunkIndex]==visitedKey ; argpath=2:c.chunks[chunkIndex].crossChunkImports[*].chunkIndex
 //@ flow asset-path-is-relative C18: func=(*linkerContext).appendIsolatedHashesForImportedChunks ; in=linker ; site=call hashWriteLengthPrefixed ; argpath=1:call ReplaceAll(call Rel(c.fs,c.options.AbsOutputDir,*.InputFile.AdditionalFiles[*].AbsPath)#0,*
 
+// C08: the comparators above break ties on StableSourceIndex. That is deterministic only if the field holds the
+// STABLE index of the file (its rank in the sorted module list, graph.StableSourceIndices), never the raw
+// source index, which is allocated in goroutine-arrival order by the scanner. Every store to a field named
+// StableSourceIndex anywhere in the package must therefore read its value out of StableSourceIndices.
+//@ flow stable-index-provenance C08: func=* ; in=linker ; site=store *.StableSourceIndex ; valuepath=*tableSourceIndices[*]
+
 // ----------------------------------------------------------------------------------------------
 // C19: the metafile's byte counts are the lengths of what is actually emitted.
 //  - the "bytes" of a chunk is len() of the very value that becomes the output file's contents (computed
